@@ -52,17 +52,22 @@ def _is_simple_alias(e):
 def aliases(fn):
     """{local name: expression} for locals assigned exactly once from a simple alias expression"""
     count, val = {}, {}
+
+    def bind(name, value):
+        # (the same alias written on several branches — a helper spliced in twice — counts once)
+        if name in val and norm_(val[name]) == norm_(value) and count.get(name, 0) >= 1:
+            return
+        count[name] = count.get(name, 0) + 1
+        val[name] = value
     for n in ast.walk(fn):
         if isinstance(n, ast.Assign):
             for t in n.targets:
                 if isinstance(t, ast.Name):
-                    count[t.id] = count.get(t.id, 0) + 1
-                    val[t.id] = n.value
+                    bind(t.id, n.value)
                 elif isinstance(t, ast.Tuple) and isinstance(n.value, ast.Tuple) and len(t.elts) == len(n.value.elts):
                     for a, b in zip(t.elts, n.value.elts):
                         if isinstance(a, ast.Name):
-                            count[a.id] = count.get(a.id, 0) + 1
-                            val[a.id] = b
+                            bind(a.id, b)
         elif isinstance(n, (ast.AugAssign, ast.For, ast.comprehension)):
             tg = n.target
             for x in ast.walk(tg):
